@@ -264,6 +264,9 @@ pub struct Case {
     pub metadata_anyway_on: Option<usize>,
     /// cell contents (NULL pattern / a big cell)
     pub shape: RowShape,
+    /// (page, kind): the response frame of that page carries envelope extensions: 1 = a warnings list, 2 = a custom
+    /// payload, 3 = both, 4 = both + a tracing id
+    pub extras: Option<(usize, u8)>,
 }
 impl Case {
     pub fn json(&self) -> Value {
@@ -278,6 +281,7 @@ impl Case {
             "cached_metadata": self.cached_metadata,
             "metadata_anyway_on": self.metadata_anyway_on,
             "rows": self.shape.name(),
+            "extras": self.extras.map(|(p, k)| json!([p, k])),
         })
     }
     pub fn from_json(v: &Value) -> Option<Case> {
@@ -292,6 +296,10 @@ impl Case {
             cached_metadata: v["cached_metadata"].as_bool().unwrap_or(false),
             metadata_anyway_on: v["metadata_anyway_on"].as_u64().map(|n| n as usize),
             shape: v["rows"].as_str().and_then(RowShape::from_name).unwrap_or(RowShape::Nulls(0)),
+            extras: match &v["extras"] {
+                Value::Array(a) if a.len() == 2 => Some((a[0].as_u64()? as usize, a[1].as_u64()? as u8)),
+                _ => None,
+            },
         })
     }
     pub fn rows(&self) -> usize {
@@ -464,6 +472,7 @@ struct RunScript {
     resolved: HashMap<u64, Option<usize>>,
     metadata_anyway_on: Option<usize>,
     shape: RowShape,
+    extras: Option<(usize, u8)>,
 }
 #[derive(Default)]
 struct Shared {
@@ -526,13 +535,28 @@ fn script_reply(shared: &Arc<Mutex<Shared>>, ctx: &mockcluster::ReqCtx) -> Reply
             r.honor_skip_metadata = false;
         }
     }
+    // envelope extensions of this page's frame: [tracing id] <warnings> <custom payload> <message>
+    let extra_kind = rs.extras.filter(|(p, _)| *p == page).map(|(_, k)| k).unwrap_or(0);
+    let dress = move |r: Response| -> mockcluster::wire::Envelope {
+        let mut env: mockcluster::wire::Envelope = r.into();
+        if extra_kind == 1 || extra_kind >= 3 {
+            env = env.with_warning("c07: scripted warning \u{e9}").with_warning("");
+        }
+        if extra_kind >= 2 {
+            env = env.with_payload("c07-extra", vec![0, 0, 0, 1]).with_payload("k", Vec::new());
+        }
+        if extra_kind == 4 {
+            env = env.with_tracing_id([0x7A; 16]);
+        }
+        env
+    };
     let cl = params.consistency;
     let fault = rs.faults[page].pop_front();
     if matches!(fault, None | Some(Fault::Delay)) {
         rs.cursor = page + 1;
     }
     match fault {
-        None => Reply::response(normal),
+        None => Reply::Frame(dress(normal)),
         Some(Fault::ReadTimeout) => Reply::error(ErrorBody::read_timeout(cl, 1, 1, false)),
         Some(Fault::Unavailable) => Reply::error(ErrorBody::unavailable(cl, 2, 1)),
         Some(Fault::Overloaded) => Reply::error(ErrorBody::overloaded("c07: overloaded")),
@@ -551,14 +575,14 @@ fn script_reply(shared: &Arc<Mutex<Shared>>, ctx: &mockcluster::ReqCtx) -> Reply
                     r.metadata.no_metadata = true;
                 }
             }
-            let env: mockcluster::wire::Envelope = normal.into();
+            let env: mockcluster::wire::Envelope = dress(normal);
             let len = env.encode_frame(ctx.stream).len();
             let body = len - mockcluster::wire::HEADER_LEN;
             Reply::CutFrame { env, bytes: mockcluster::wire::HEADER_LEN + body / 2, then: CloseKind::Rst }
         }
         Some(Fault::Delay) => {
             held.insert(ctx.entry.seq);
-            Reply::response(normal)
+            Reply::Frame(dress(normal))
         }
     }
 }
@@ -730,6 +754,7 @@ impl World {
                     resolved: HashMap::new(),
                     metadata_anyway_on: case.metadata_anyway_on,
                     shape: case.shape,
+                    extras: case.extras,
                 },
             );
         }
@@ -1251,7 +1276,8 @@ pub async fn run_batch(cases: Arc<Vec<Case>>, jobs: usize, stop_after: usize) ->
             loop {
                 {
                     let g = out.lock().unwrap();
-                    if g.machinery.is_some() || g.complaints.len() >= stop_after {
+                    // a runaway pager or a hang makes every further case slow: one is enough, stop the leg
+                    if g.machinery.is_some() || g.complaints.len() >= stop_after || g.complaints.iter().any(|c| c.key.contains("runaway") || c.key.contains("liveness")) {
                         break;
                     }
                 }
@@ -1342,6 +1368,9 @@ pub fn dimension_counts(cases: &[Case]) -> BTreeMap<String, u64> {
         bump(format!("cases_rows_{}", c.rows()));
         bump(format!("cases_faults_{}", c.faults.len()));
         bump(format!("cases_nodes_{}", c.nodes));
+        if let Some((p, k)) = c.extras {
+            bump(format!("cases_page_with_{}_{}", ["", "warnings", "custom_payload", "warnings_and_custom_payload", "warnings_custom_payload_and_tracing_id"][k as usize], if p == 0 { "first_page" } else { "later_page" }));
+        }
         match c.shape {
             RowShape::Nulls(_) => bump("cases_rows_with_null_pattern".into()),
             RowShape::Big(n) if n > 65536 => bump("cases_with_page_body_over_64KiB".into()),
